@@ -21,6 +21,7 @@ import Fir.Proofs.SimdU8x4Lemmas
 import Fir.Proofs.SimdVertU8Lemmas
 import Fir.Proofs.SimdU8x3Lemmas
 import Fir.Proofs.SimdVertU16Lemmas
+import Fir.Proofs.SimdU8x1Lemmas
 
 namespace Fir.C02
 open Fir
@@ -398,5 +399,20 @@ theorem u8x3_sse4_four_rows_eq_portable (p w : Nat) (hp : p < 32) (row : List In
 
 theorem u8x3_sse4_four_rows_source_as_modelled : Fir.Gen.u8x3_sse4_four_rows_skeleton =
     "_mm_setzero_si128() ; _mm_set1_epi32(1 << (PRECISION - 1)) ; saturating_sub(5) ; chunks_exact(4) ; simd_utils::mm_load_and_clone_i16x2(k) ; simd_utils::mm_load_and_clone_i16x2(&k[2..]) ; simd_utils::loadu_si128(src_rows[i], x) ; _mm_shuffle_epi8(source, sh_lo) ; _mm_add_epi32(sss, _mm_madd_epi16(pix, mmk0)) ; _mm_shuffle_epi8(source, sh_hi) ; _mm_add_epi32(sss, _mm_madd_epi16(pix, mmk1)) ; saturating_sub(2) ; chunks_exact(2) ; simd_utils::mm_load_and_clone_i16x2(k) ; simd_utils::loadl_epi64(src_rows[i], x) ; _mm_shuffle_epi8(source, sh_lo) ; _mm_add_epi32(sss_a[i], _mm_madd_epi16(pix, mmk)) ; split_at(x - x_start) ; _mm_set1_epi32(k as i32) ; simd_utils::mm_cvtepu8_epi32_u8x3(src_rows[i], x) ; _mm_add_epi32(sss_a[i], _mm_madd_epi16(pix, mmk)) ; _mm_srai_epi32::<PRECISION>(sss_a[0]) ; _mm_srai_epi32::<PRECISION>(sss_a[1]) ; _mm_srai_epi32::<PRECISION>(sss_a[2]) ; _mm_srai_epi32::<PRECISION>(sss_a[3]) ; _mm_packs_epi32(sss_a[i], zero) ; _mm_cvtsi128_si32(_mm_packus_epi16(sss, zero)) | if x < max_x ; if x >= max_x ; if x < max_x ; if x >= max_x" := by rfl
+
+/-! ### single-channel 8-bit images: the SSE4.1 horizontal kernels of U8 (src/convolution/u8x1/sse4.rs)
+
+    8 pixels widened with `_mm_cvtepu8_epi16` and multiplied with 8 coefficients by `_mm_madd_epi16`, at most one 4-pixel
+    step, the horizontal sum of the four lanes plus the rounding constant, a scalar remainder of 0..3 coefficients, the
+    portable `Normalizer16::clip`.  The four-row kernel does per row what the one-row kernel does. -/
+
+theorem u8x1_sse4_eq_portable (p : Nat) (row : List Int) (start : Nat) (ks : List Int) :
+    Fir.SimdU8x1.pixel p row start ks = clip8 (2 ^ (p - 1) + Fir.SimdU8x1.dot1 row ks start) p :=
+  Fir.Proofs.u8x1_sse4_pixel_eq_portable p row start ks
+
+theorem u8x1_sse4_source_as_modelled :
+    Fir.Gen.u8x1_sse4_one_row_skeleton = "_mm_setzero_si128() ; normalizer.precision() ; chunks_exact(8) ; remainder() ; _mm_loadu_si128(k.as_ptr() as *const __m128i) ; simd_utils::loadl_epi64(src_row, x) ; _mm_cvtepu8_epi16(pixels_u8x8) ; _mm_add_epi32(result_i32x4, _mm_madd_epi16(pixels_i16x8, coeffs_i16x8)) ; chunks_exact(4) ; remainder() ; next() ; simd_utils::loadl_epi64(k, 0) ; simd_utils::loadl_epi32(src_row, x) ; _mm_cvtepu8_epi16(pixels_u8x4) ; _mm_add_epi32(result_i32x4, _mm_madd_epi16(pixels_i16x4, coeffs_i16x4)) ; _mm_storeu_si128(buf.as_mut_ptr() as *mut __m128i, result_i32x4) ; sum() ; normalizer.clip(result_i32)" ∧
+    Fir.Gen.u8x1_sse4_four_rows_skeleton = "_mm_setzero_si128() ; normalizer.precision() ; chunks_exact(8) ; remainder() ; _mm_loadu_si128(k.as_ptr() as *const __m128i) ; simd_utils::loadl_epi64(src_rows[i], x) ; _mm_cvtepu8_epi16(pixels_u8x8) ; _mm_add_epi32(result_i32x4[i], _mm_madd_epi16(pixels_i16x8, coeffs_i16x8)) ; chunks_exact(4) ; remainder() ; next() ; simd_utils::loadl_epi64(k, 0) ; simd_utils::loadl_epi32(src_rows[i], x) ; _mm_cvtepu8_epi16(pixels_u8x4) ; _mm_add_epi32(result_i32x4[i], _mm_madd_epi16(pixels_i16x4, coeffs_i16x4)) ; _mm_storeu_si128(buf.as_mut_ptr() as *mut __m128i, v) ; sum() ; normalizer.clip(v)" := by
+  constructor <;> rfl
 
 end Fir.C02
